@@ -254,14 +254,26 @@ pub fn materialise(t: &Tables, lines: &Value, term: bool, origin: &str, use_earl
         "parsed" => Obj::Doc(guarded("Deb822::from_str", || Deb822::from_str(&text))?.map_err(|e| format!("base document rejected: {:?} {:?}", e, text))?),
         "built" => {
             if paras.is_empty() { Obj::Doc(Deb822::new()) } else {
-                let ps: Vec<Paragraph> = paras.iter().enumerate().map(|(n, p)| if n % 2 == 0 { p.clone().into_iter().collect::<Paragraph>() } else { Paragraph::from(p.clone()) }).collect();
+                // the four constructors from pairs, in turn
+                let ps: Vec<Paragraph> = paras.iter().enumerate().map(|(n, p)| match (n + use_early as usize) % 4 {
+                    0 => p.clone().into_iter().collect::<Paragraph>(),
+                    1 => Paragraph::from(p.clone()),
+                    2 => Paragraph::from(p.iter().map(|(k, v)| (k.as_str(), v.as_str())).collect::<Vec<(&str, &str)>>()),
+                    _ => p.iter().map(|(k, v)| (k.as_str(), v.as_str())).collect::<Paragraph>(),
+                }).collect();
                 Obj::Doc(ps.into_iter().collect::<Deb822>())
             }
         }
         "para_parsed" => Obj::Solo(guarded("Paragraph::from_str", || Paragraph::from_str(&text))?.map_err(|e| format!("base paragraph rejected: {:?}", e))?),
-        "para_built" => Obj::Solo(paras[0].iter().map(|(k, v)| (k.as_str(), v.as_str())).collect::<Paragraph>()),
+        "para_built" => Obj::Solo(if use_early { paras[0].clone().into_iter().collect::<Paragraph>() } else { paras[0].iter().map(|(k, v)| (k.as_str(), v.as_str())).collect::<Paragraph>() }),
         o => return Err(format!("unknown origin {}", o)),
     };
+    // a paragraph built from name/value pairs holds exactly those pairs, in order (duplicates included)
+    if origin == "built" || origin == "para_built" {
+        let got: Vec<Vec<(String, String)>> = match &obj { Obj::Doc(d) => d.paragraphs().map(|p| p.items().collect()).collect(), Obj::Solo(p) => vec![p.items().collect()] };
+        let want: Vec<Vec<(String, String)>> = if origin == "para_built" { vec![paras[0].clone()] } else { paras.clone() };
+        if got != want { return Err(format!("BUILT-MISMATCH built from pairs {:?}, reports {:?}", want, got)); }
+    }
     let mut live = Live { obj, early: vec![], use_early };
     if let Obj::Doc(d) = &live.obj {
         live.early = d.paragraphs().enumerate().map(|(i, p)| (p, Some(i))).collect();
@@ -307,7 +319,7 @@ pub fn run_edge(case: &Value, seed: u64) -> Outcome {
         let use_early = (seed + m as u64 + hist.len() as u64) % 2 == 0;
         let mut live = match materialise(&t, &case["s0"]["lines"], case["s0"]["term"].as_bool().unwrap_or(true), &origin, use_early) {
             Ok(l) => l,
-            Err(e) => { o.d("materialise", "", e); continue; }
+            Err(e) => { if e.starts_with("BUILT-MISMATCH") { o.v("C04", "built_from_pairs", "Paragraph::from / FromIterator", "mismatch", &vec![format!("origin:{}", origin)], &render(&t, &case["s0"]["lines"], true), e); } else { o.d("materialise", "", e); } continue; }
         };
         o.evals += 1;
         let mut events: Vec<Value> = vec![];
